@@ -46,5 +46,8 @@ def pairs():
                   replace=["mi_span_queue_push/c_sq_push_rec", "mi_segment_schedule_purge/c_schedule_purge_rec"], functions=["mi_segment_span_free", "mi_span_queue_for"], timeout=600),
       "slice_split": dict(name="slice_split", entry="h_slice_split", harness="harness/seg_span.c", enforce="mi_segment_slice_split", config="SCALED", label="P", unwind=14,
                   replace=["mi_segment_span_free/c_span_free_rec"], functions=["mi_segment_slice_split", "mi_slice_index"], timeout=600, cbmc_flags=NOPTR),
+      "segment_os_free": dict(name="segment_os_free", entry="h_segment_os_free", harness="harness/seg_alloc.c", enforce="mi_segment_os_free", config="SCALED", label="PC", unwind=14,
+                  unwindset={"_mi_commit_mask_committed_size.0": 66, "_mi_commit_mask_committed_size.1": 4},
+                  replace=["_mi_arena_free/c_arena_free_rec2", "mi_segments_track_size/c_track_size_rec2", "_mi_segment_map_freed_at"], functions=["mi_segment_os_free", "_mi_commit_mask_committed_size"], timeout=600),
       "seg_ensure_committed": P("seg_ensure_committed", "h_ensure_committed", "mi_segment_ensure_committed", ["mi_segment_commit/c_seg_commit_rec"]),
     }
